@@ -164,6 +164,10 @@ def check_enumeration(spec, cls_desc, upto, mech="C01:wrong-count"):
             cx.count("enum.counts_compared")
             if c != v:
                 cx.violation(mech, f"count_objects_of_size({n},{p})={c}, truth {v}", {"n": n})
+            if len(names) >= 2:  # keyword order must not matter
+                c = spec.count_objects_of_size(n, **dict(reversed(list(zip(names, p)))))
+                if c != v:
+                    cx.violation(mech, f"count_objects_of_size({n}, keywords reversed {p})={c}, truth {v}", {"n": n})
     return True
 
 
